@@ -204,6 +204,60 @@ func (p *c09Proc) close() {
 	_ = os.RemoveAll(p.jail)
 }
 
+// c09BlockedAfter: a worker that consumed no CPU time at all for this long (and owes a reply for longer
+// than the deadline) is blocked, not starved. c09WallBackstop x deadline: the wall clock limit that
+// applies whatever the CPU accounting says.
+const (
+	c09BlockedAfter = 4 * time.Second
+	c09WallBackstop = 20
+)
+
+// allSleeping: every thread of the worker is in interruptible sleep (waiting on a futex, a pipe, a
+// timer): nothing of it wants the CPU.
+func (p *c09Proc) allSleeping() bool {
+	dir := fmt.Sprintf("/proc/%d/task", p.cmd.Process.Pid)
+	ents, err := os.ReadDir(dir)
+	if err != nil || len(ents) == 0 {
+		return true
+	}
+	for _, en := range ents {
+		b, err := os.ReadFile(filepath.Join(dir, en.Name(), "stat"))
+		if err != nil {
+			continue
+		}
+		s := string(b)
+		if i := strings.LastIndexByte(s, ')'); i >= 0 && i+2 < len(s) {
+			if st := s[i+2]; st == 'R' || st == 'D' {
+				return false
+			}
+		}
+	}
+	return true
+}
+
+// cpu: user + system time the worker process (all threads) has consumed.
+func (p *c09Proc) cpu() (time.Duration, bool) {
+	b, err := os.ReadFile(fmt.Sprintf("/proc/%d/stat", p.cmd.Process.Pid))
+	if err != nil {
+		return 0, false
+	}
+	s := string(b)
+	i := strings.LastIndexByte(s, ')')
+	if i < 0 {
+		return 0, false
+	}
+	f := strings.Fields(s[i+1:])
+	if len(f) < 13 {
+		return 0, false
+	}
+	ut, e1 := strconv.ParseInt(f[11], 10, 64)
+	st, e2 := strconv.ParseInt(f[12], 10, 64)
+	if e1 != nil || e2 != nil {
+		return 0, false
+	}
+	return time.Duration(ut+st) * (time.Second / 100), true // USER_HZ is 100 on Linux
+}
+
 func (p *c09Proc) rss() int64 {
 	b, err := os.ReadFile(fmt.Sprintf("/proc/%d/statm", p.cmd.Process.Pid))
 	if err != nil {
@@ -321,6 +375,12 @@ func (e *c09Engine) runSome(cases []c09Case, res []c09Result, grace bool) int {
 	defer tick.Stop()
 	last := time.Now()
 	verdict := "" // H | M once we decided to kill
+	// load independence: the deadline is CPU time of the worker since its last reply (a busy case), or
+	// wall clock while the worker consumes no CPU at all (a blocked case); plain wall clock is only a
+	// distant backstop. A machine at load 100 stretches wall clock, not CPU time.
+	var baseFor time.Time // the value of `last` the CPU base belongs to
+	var cpuBase, cpuSeen time.Duration
+	var cpuSeenAt time.Time
 	for got < len(cases) {
 		select {
 		case l, ok := <-lines:
@@ -357,7 +417,33 @@ func (e *c09Engine) runSome(cases []c09Case, res []c09Result, grace bool) int {
 			if verdict != "" {
 				continue
 			}
-			if time.Since(last) > e.Deadline {
+			now := time.Now()
+			cpu, cpuOK := p.cpu()
+			if baseFor != last {
+				baseFor, cpuBase, cpuSeen, cpuSeenAt = last, cpu, cpu, now
+			} else if cpu != cpuSeen {
+				cpuSeen, cpuSeenAt = cpu, now
+			}
+			wall := now.Sub(last)
+			hang := false
+			switch {
+			case wall <= e.Deadline:
+			case !cpuOK:
+				hang = true // no /proc: wall clock only
+			case cpu-cpuBase > e.Deadline:
+				hang = true // busy for more than the deadline
+			case now.Sub(cpuSeenAt) > c09BlockedAfter:
+				// no CPU consumed for seconds: blocked — unless a thread is runnable or in uninterruptible
+				// sleep (starved / paging on an overloaded machine), then the idle window starts again
+				if p.allSleeping() {
+					hang = true
+				} else {
+					cpuSeenAt = now
+				}
+			case wall > c09WallBackstop*e.Deadline:
+				hang = true
+			}
+			if hang {
 				verdict = "H"
 				e.kills.Add(1)
 				p.kill()
@@ -369,14 +455,17 @@ func (e *c09Engine) runSome(cases []c09Case, res []c09Result, grace bool) int {
 		}
 	}
 	if grace {
-		// the worker exits by itself after the grace period; a crash in it belongs to the last case
+		// the worker exits by itself after the grace period; a crash in it belongs to the last case.
+		// A worker that we have to kill here (slow exit on a loaded machine) did not crash.
+		killedHere := false
 		select {
 		case <-p.done:
-		case <-time.After(e.Deadline):
+		case <-time.After(c09WallBackstop * e.Deadline):
+			killedHere = true
 			p.kill()
 			<-p.done
 		}
-		if p.err != nil && got > 0 {
+		if p.err != nil && got > 0 && !killedHere {
 			res[got-1] = c09Result{Status: "D", Stage: "after", Stderr: c09Head(p.stderr.String()), Exit: fmt.Sprint(p.err)}
 		}
 	}
